@@ -30,6 +30,9 @@ def _orig(r, ident, used_names, plain=False):
     x = r.random()
     if x < 0.5:
         name = ident
+    elif x < 0.6 and ident.swapcase() != ident:
+        # the original name differs from the identifier in letter case only:  (rename xp_clk "XP_CLK")
+        name = r.choice([ident.upper(), ident.swapcase(), ident.capitalize()])
     elif plain:
         name = r.choice(["", "n.", "sig_"]) + ident + r.choice(["", "$x", ".q", "/p"])
     else:
